@@ -28,7 +28,9 @@ MANIFEST = {
             'expression, full path with size/null/missing/etc, '
             'fmt=html-quote, plain) on the real code; each result must equal '
             'html.escape(value, quote=True) (plain forms: the value).  '
-            'Latin-1 bytes are also inserted into file-based templates and '
+            '17 values that are not strings (numbers, containers, objects '
+            'whose string form needs escaping) go through every quoting '
+            'form.  Latin-1 bytes are also inserted into file-based templates and '
             'into template objects without an encoding attribute (both mean '
             'the old default Latin-1).  '
             'html_quote with another option is decided relationally: with '
@@ -250,7 +252,29 @@ def run_rel(res, case):
     return res
 
 
+class Texty:
+    """an object whose string form needs escaping"""
+
+    def __init__(self, text):
+        self.text = text
+
+    def __str__(self):
+        return self.text
+
+    def __repr__(self):
+        return 'Texty(%r)' % self.text
+
+
+def objects():
+    """values that are not strings: what is escaped is their string form"""
+    return [7, -3, 2.5, True, ['a<'], ["it's"], ('x&y', '"'), {'k': '<v>'},
+            Texty('o<&>"\' \xe9'), Texty('plain'), ValueError('<e>'),
+            {'<s>'}, 10 ** 20, 1e300, complex(1, 2), range(3),
+            [Texty('in<list')]]
+
+
 def cases(tier):
+    yield {'kind': 'objects'}
     for n in range(0, 4 if tier == 'quick' else 5):
         if n < 2:
             yield {'kind': 'rel', 'n': n, 'pre': []}
@@ -367,6 +391,24 @@ def run(case):
     if case['kind'] == 'rel-one':
         return run_rel(res, {'kind': 'cp', 'lo': 0, 'hi': 0,
                              'only': case['value']})
+    if case['kind'] == 'objects':
+        n = 0
+        for v in objects():
+            text = str(v)
+            for form, _cls, _src, quoting in FORMS:
+                if not quoting:
+                    continue
+                for pre in (False, True):
+                    got = render(form, v, None, pre)
+                    n += 1
+                    exp = expected(form, text)
+                    if got != exp:
+                        judge(res, case, form + ('@after-tainted-render'
+                                                 if pre else ''),
+                              text, got, exp, 'object:' + type(v).__name__)
+        res.evals = res.nt_count = n
+        res.outcome = 'objects'
+        return res
     if case['kind'] == 'one':
         # replay form
         value, enc, form = case['value'], case.get('enc'), case['form']
